@@ -247,16 +247,21 @@ func (c *c38Case) op(op string) string {
 		if err := c.sm.GetPairs(nil, req, &res); err != nil {
 			return "err"
 		}
-		items := make([]string, len(res))
+		kvs := make([][]string, len(res))
 		for i, it := range res {
 			kv, ok := it.([]string)
 			if !ok || len(kv) != 2 {
 				return "bad-item"
 			}
-			items[i] = kv[0] + "=" + kv[1]
+			kvs[i] = kv
 		}
 		if fromMap {
-			sort.Strings(items)
+			// Go map order: sort by the key text (lower-case hex: the byte order of the keys)
+			sort.SliceStable(kvs, func(a, b int) bool { return kvs[a][0] < kvs[b][0] })
+		}
+		items := make([]string, len(kvs))
+		for i, kv := range kvs {
+			items[i] = kv[0] + "=" + kv[1]
 		}
 		return c38Join(items)
 	}
